@@ -217,7 +217,7 @@ func runC12(c *Ctx) {
 					return false
 				}
 				o, s := ownerOfFieldBase(fa.X.Type())
-				return o == "db/diffdb.cacheValue" && s.Field(fa.Field).Name() == fld
+				return o == "db/diffdb.cacheValue" && fieldNameOf(s.Field(fa.Field)) == fld
 			}
 			first := setFn.Blocks[0].Instrs[0]
 			path := reachesReturnAvoiding(first, isSt, nil)
@@ -438,7 +438,7 @@ func checkSentinelProducers(c *Ctx, rule string, commit *ssa.Function) {
 						continue
 					}
 					o, s := ownerOfFieldBase(fa.X.Type())
-					if o != "db/diffdb.cacheValue" || s.Field(fa.Field).Name() != "init" {
+					if o != "db/diffdb.cacheValue" || fieldNameOf(s.Field(fa.Field)) != "init" {
 						continue
 					}
 					n++
@@ -453,7 +453,7 @@ func checkSentinelProducers(c *Ctx, rule string, commit *ssa.Function) {
 						for _, i2 := range bb.Instrs {
 							if fa2, ok := i2.(*ssa.FieldAddr); ok && fa2 != fa {
 								o2, s2 := ownerOfFieldBase(fa2.X.Type())
-								if o2 == "db/diffdb.cacheValue" && s2.Field(fa2.Field).Name() == "init" && fa2.X != fa.X {
+								if o2 == "db/diffdb.cacheValue" && fieldNameOf(s2.Field(fa2.Field)) == "init" && fa2.X != fa.X {
 									readsInit = true
 								}
 							}
